@@ -2,7 +2,9 @@
 
 For each error class named in a chain on a given variable the rule computes what the
 arm does along every normal path until the function returns / raises / goes to the
-next loop iteration: the calls made and the terminal.  Handlers of one protocol are
+next loop iteration: the calls made and the terminal.  Paths that contradict the class
+at a nested test of the same variable are dropped (so `error_type in (A, B)` followed by
+`if error_type is A` yields separate effects for A and B).  Handlers of one protocol are
 then cross-checked against the table the protocol demands.
 """
 from __future__ import annotations
@@ -14,14 +16,16 @@ from .loader import call_attr, unparse
 
 
 def _classes_of_test(e, var):
-    """`var is X` / `var == X` / `var in (X, Y)` -> [names]; else None."""
+    """(`var is X` | `var == X` | `var in (X, Y)`) -> ([names], positive); negated forms -> ([names], False)."""
     if isinstance(e, ast.Compare) and len(e.ops) == 1 and unparse(e.left) == var:
         op = e.ops[0]
         rhs = e.comparators[0]
         if isinstance(op, (ast.Is, ast.Eq)):
-            return [unparse(rhs).split(".")[-1]]
-        if isinstance(op, ast.In) and isinstance(rhs, (ast.Tuple, ast.List, ast.Set)):
-            return [unparse(x).split(".")[-1] for x in rhs.elts]
+            return [unparse(rhs).split(".")[-1]], True
+        if isinstance(op, (ast.IsNot, ast.NotEq)):
+            return [unparse(rhs).split(".")[-1]], False
+        if isinstance(op, (ast.In, ast.NotIn)) and isinstance(rhs, (ast.Tuple, ast.List, ast.Set)):
+            return [unparse(x).split(".")[-1] for x in rhs.elts], isinstance(op, ast.In)
     return None
 
 
@@ -42,6 +46,14 @@ class Arm:
 
     def terminals(self):
         return sorted({t for _c, t, _n in self.paths})
+
+    def stores(self):
+        s = set()
+        for _c, _t, nodes in self.paths:
+            for n in nodes:
+                if n.kind == "store" and isinstance(n.ast, (ast.Attribute, ast.Subscript)):
+                    s.add(unparse(n.ast))
+        return s
 
     def describe(self):
         return f"calls={sorted(self.calls())} end={self.terminals()}"
@@ -73,53 +85,94 @@ def _terminal(c, path):
     return "?"
 
 
-def chain_arms(c, var, stop_at_loop=True):
-    """dict class name -> Arm, plus the 'else' arm under key '<else>' (entered when every test is false)."""
+def chain_arms(c, var, within=None):
+    """dict class name -> Arm, plus the 'else' arm under key '<else>' (entered when every test is false).
+    `within`: optional set of CFG nodes to restrict the chain tests to."""
     tests = []
     for n in c.nodes:
-        if n.kind == "test":
-            cl = _classes_of_test(n.ast, var)
-            if cl:
-                tests.append((n, cl))
+        if n.kind == "test" and (within is None or n in within):
+            r = _classes_of_test(n.ast, var)
+            if r and r[0]:
+                tests.append((n, r[0], r[1]))
     arms = {}
     if not tests:
         return arms
     ends = [c.exit, c.raise_exit] + [n for n in c.nodes if n.kind == "loop"] + [n for n in c.nodes if n.kind == "handler"]
-    testnodes = {t for t, _ in tests}
+    info = {t: (cl, pos) for t, cl, pos in tests}
 
-    def follow(start_nodes):
+    def consistent(path, name):
+        for a, b in zip(path, path[1:]):
+            if a in info:
+                cl, pos = info[a]
+                lab = [l for m, l in a.succ if m is b]
+                if not lab:
+                    continue
+                taken_true = lab[0] == "T"
+                holds = (name in cl) if pos else (name not in cl)
+                if name == "<else>":
+                    # else arm: every positive test false, every negative test true
+                    holds = not pos
+                if taken_true != holds:
+                    return False
+        return True
+
+    def follow(start_nodes, name):
         out = []
         for s in start_nodes:
             if s in ends:
-                out.append(([], _terminal(c, [s, s]) if s is not c.exit else "return:None", [s]))
+                out.append(([], "return:None" if s is c.exit else _terminal(c, [s, s]), [s]))
                 continue
             for p in enum_paths(c, s, ends, exc=False, follow_back=False):
+                if not consistent(p, name):
+                    continue
                 calls = [call_attr(n.ast) for n in p if n.kind == "call" and call_attr(n.ast)]
                 out.append((calls, _terminal(c, p), p))
-            # a start node that is itself a return/raise
         return out
 
-    for t, cl in tests:
-        starts = [m for m, l in t.succ if l == "T"]
-        for name in cl:
-            a = arms.setdefault(name, Arm(name, t))
-            a.paths += follow(starts)
-    # else arm: F-successors that are not tests of the chain, reached only through F edges of chain tests
+    for t, cl, pos in tests:
+        if pos:
+            starts = [m for m, l in t.succ if l == "T"]
+            for name in cl:
+                a = arms.setdefault(name, Arm(name, t))
+                a.paths += follow(starts, name)
+        else:
+            starts = [m for m, l in t.succ if l == "F"]
+            for name in cl:
+                a = arms.setdefault(name, Arm(name, t))
+                a.paths += follow(starts, name)
+    # else arm: successors reached when a positive test is false / a negative test is true, and that do not
+    # lead straight into another chain test
     else_starts = []
-    for t, _ in tests:
+    for t, cl, pos in tests:
         for m, l in t.succ:
-            if l == "F" and m not in testnodes:
-                # m may be the first node of evaluating the next test (call nodes of `a or b`) -- skip when it leads to a chain test directly
+            if l == ("F" if pos else "T") and m not in info:
                 nxt = m
                 hops = 0
                 while nxt.kind in ("call",) and len(nxt.succ) >= 1 and hops < 4:
                     nxt = [x for x, lab in nxt.succ if lab != "exc"][0]
                     hops += 1
-                if nxt in testnodes:
+                if nxt in info:
                     continue
+                if not pos:
+                    # `if var is not NoError:` body -- the tests inside decide; the body start is not an else arm
+                    # unless no chain test follows
+                    inner = c.reachable([m], exc=False, include_src=True)
+                    if any(x in info for x in inner):
+                        continue
                 else_starts.append(m)
     if else_starts:
         a = Arm("<else>", None)
-        a.paths = follow(else_starts)
+        a.paths = follow(else_starts, "<else>")
         arms["<else>"] = a
     return arms
+
+
+def effects(arm, state_calls):
+    """Summary: (sorted state-changing calls made on every path, sorted made on some path, terminals)."""
+    every = None
+    some = set()
+    for calls, _t, _n in arm.paths:
+        s = set(calls) & state_calls
+        some |= s
+        every = s if every is None else (every & s)
+    return sorted(every or ()), sorted(some), arm.terminals()
